@@ -451,3 +451,83 @@ def _rehydrate_arg_from_get(cfg, f, e):
     if n_inits == 0:
         return False, 'no initialisation site of the stack entry found'
     return True, ''
+
+
+def lw6(cfg):
+    """LW-6: debug accounting of read sections - one unit of read_lock_count per section, given back exactly once"""
+    from ..engine import dominators
+    from .qsbr import control_conditions
+    from ..forwarders import is_assert_elem
+    res = RuleResult('LW-6', 'assertion-enabled builds count open read sections per lock (read_lock_count, asserted zero when the node is freed, asserted positive on every check): a read_critical_section owns one unit exactly while its lock pointer is non-null. The lock-level operations give the unit back under a condition read off their own code (check: when the check fails; try_read_unlock: always), and the section clears its lock pointer on exactly those paths - otherwise its destructor gives the unit back a second time and the next check on that lock asserts although the usage is legal')
+    if '-debug-' not in cfg.name:
+        res.note('assertion-enabled configurations only (the accounting does not exist under NDEBUG)')
+        return res
+    RCSC = 'unodb::optimistic_lock::read_critical_section'
+    # 1. when does a lock-level operation give the unit back?  read off dec_read_lock_count() and its control conditions
+    release = {}
+    for f in cfg.functions:
+        if not f.blocks or f.cls != OL or f.short not in ('check', 'try_read_unlock'):
+            continue
+        inits = {}
+        for b, i, e in f.elements():
+            if e.get('k') == 'decl':
+                for v in e['vars']:
+                    if 'init' in v:
+                        inits[v['did']] = v['init']
+        conds = set()
+        for b, i, e in f.elements():
+            if e.get('k') == 'call' and e.get('name') == 'dec_read_lock_count' and not is_assert_elem(e):
+                cc = [(c, val) for c, val, cb in control_conditions(f, b) if isinstance(c, dict) and c.get('k') == 'ref' and c.get('name') == 'result']
+                conds.add(('result', cc[0][1]) if cc else ('always',))
+        via_check = any(e.get('k') == 'call' and e.get('name') == 'check' and e.get('cls') == OL for b, i, e in f.elements())
+        if f.short == 'check':
+            release['check'] = 'on-false' if conds == {('result', False)} else ('never' if not conds else 'other')
+        else:
+            # try_read_unlock = check (releases on false) + own release on true
+            release['try_read_unlock'] = 'always' if (via_check and conds == {('result', True)} and release.get('check', 'on-false') == 'on-false') or conds == {('always',)} else 'other'
+    for k in ('check', 'try_read_unlock'):
+        if release.get(k) in (None, 'other'):
+            res.incompl('LW-6: the condition under which optimistic_lock::%s gives back the read-lock unit was not recognised (%s)' % (k, release.get(k)))
+            return res
+    # 2. the section clears its lock pointer on exactly those paths
+    n = 0
+    for f in cfg.functions:
+        if not f.blocks or f.cls != RCSC or f.short not in ('check', 'try_read_unlock'):
+            continue
+        calls = [(b, i, e) for b, i, e in f.elements() if e.get('k') == 'call' and e.get('cls') == OL and e.get('name') in release]
+        if len(calls) != 1:
+            res.incompl('LW-6: read_critical_section::%s does not make exactly one lock-level call' % f.short)
+            continue
+        n += 1
+        res.functions.add(f.sig)
+        rel = release[calls[0][2]['name']]
+        nulls = []
+        for b, i, e in f.elements():
+            if e.get('k') == 'binop' and e.get('op') == '=':
+                l, r = f.strip_casts(e['l']), f.strip_casts(e['r'])
+                if isinstance(l, dict) and l.get('k') == 'member' and l.get('name') == 'lock' and isinstance(r, dict) and r.get('k') == 'nullptr':
+                    nulls.append((b, i))
+        dom = dominators(f)
+        exit_doms = dom.get(f.exit, set())
+        ok = False
+        how = ''
+        if rel == 'always':
+            ok = any(b in exit_doms for b, i in nulls)
+            how = 'on every path'
+        elif rel == 'on-false':
+            for b, i in nulls:
+                # an unconditional clear is wrong too: a still valid section would lose its lock pointer
+                cc = [(c, val) for c, val, cb in control_conditions(f, b) if isinstance(c, dict) and c.get('k') == 'ref' and c.get('name') == 'result']
+                if cc and cc[0][1] is False:
+                    ok = True
+            how = 'on the paths on which the check failed (and only there)'
+        elif rel == 'never':
+            ok = not nulls
+            how = 'never'
+        res.ob(ok, {'rule': 'LW-6', 'function': 'read_critical_section::%s' % f.short, 'site': fileline(f.loc), 'lock_level_call_gives_unit_back': rel, 'verdict': 'lock pointer cleared ' + how if ok else 'VIOLATION'})
+        if not ok:
+            res.find(f, f.loc, 'read_critical_section::%s: optimistic_lock::%s gives the read-lock unit back %s, but the section does not clear its lock pointer %s: its destructor then gives the unit back a second time (read_lock_count underflows: the assertion `read_lock_count > 0` of the next check on this lock fires on a legal scan / lookup that merely lost a race), or a still valid section loses its unit' % (f.short, calls[0][2]['name'], {'always': 'always', 'on-false': 'when it returns false', 'never': 'never'}[rel], how),
+                     key='LW-6:%s' % f.short, config=cfg.name)
+    res.count('section operations that may give the unit back', n)
+    res.floor('section operations that may give the unit back', 2)
+    return res
